@@ -1,3 +1,224 @@
 package main
 
-func staticChecks(w *World, id string) []*FuncResult { return nil }
+// Static typestate obligations, decided on the SSA control-flow graph instead of
+// by an SMT solver (back end "cfg"):
+//   borrow SRC until REL   memory obtained from a call to SRC (e.g. a slice of an mmap)
+//                          must not be used on any path after a call to REL (unmap)
+
+import (
+	"fmt"
+	"go/token"
+	"go/types"
+	"strings"
+
+	"golang.org/x/tools/go/ssa"
+)
+
+func calleeKeyOf(c *ssa.CallCommon) string {
+	if c.IsInvoke() {
+		return methodKey(c.Method)
+	}
+	if f := c.StaticCallee(); f != nil {
+		return funcKey(f)
+	}
+	return ""
+}
+
+func staticChecks(w *World, id string) []*FuncResult {
+	var out []*FuncResult
+	for _, k := range sortedKeys(w.specs.Funcs) {
+		sp := w.specs.Funcs[k]
+		if sp.Ext || !hasProp(sp.Props, id) || len(sp.Borrows) == 0 {
+			continue
+		}
+		fn := w.FindFunc(sp.Key)
+		if fn == nil {
+			continue
+		}
+		res := &FuncResult{Key: sp.Key + " (borrow check)", Fn: shortFn(fn), Hash: w.funcSourceHash(fn), Mode: "cfg"}
+		for _, b := range sp.Borrows {
+			res.Obls = append(res.Obls, borrowCheck(w, fn, sp, b[0], b[1])...)
+		}
+		out = append(out, res)
+	}
+	return out
+}
+
+func borrowCheck(w *World, fn *ssa.Function, sp *FuncSpec, src, rel string) []*Obligation {
+	vc := NewVC(Mode{})
+	mk := func(what string, ok bool, detail string) *Obligation {
+		o := &Obligation{Name: fmt.Sprintf("%s#borrow:%s", shortFn(fn), what), Fn: shortFn(fn), Kind: "static", VC: vc, Props: sp.Props, Solver: "cfg"}
+		if ok {
+			o.Status = "discharged"
+		} else {
+			o.Status = "refuted"
+			o.Model = detail
+		}
+		return o
+	}
+	tainted := map[ssa.Value]bool{}
+	taintedAlloc := map[*ssa.Alloc]bool{}
+	var sources, releases []ssa.Instruction
+	for _, b := range fn.Blocks {
+		for _, in := range b.Instrs {
+			var c *ssa.CallCommon
+			switch i := in.(type) {
+			case *ssa.Call:
+				c = i.Common()
+			case *ssa.Defer:
+				c = i.Common()
+			}
+			if c == nil {
+				continue
+			}
+			k := calleeKeyOf(c)
+			if k != "" && strings.HasSuffix(k, src) {
+				sources = append(sources, in)
+				if v, ok := in.(ssa.Value); ok {
+					tainted[v] = true
+				}
+			}
+			if k != "" && strings.HasSuffix(k, rel) {
+				releases = append(releases, in)
+			}
+		}
+	}
+	if len(sources) == 0 || len(releases) == 0 {
+		return []*Obligation{mk(fmt.Sprintf("calls to %s and %s exist", src, rel), false, "the borrow clause does not bind: no call to the source or to the release function")}
+	}
+	// propagate taint to a fixpoint
+	for changed := true; changed; {
+		changed = false
+		for _, b := range fn.Blocks {
+			for _, in := range b.Instrs {
+				switch i := in.(type) {
+				case *ssa.Extract:
+					if tainted[i.Tuple] && isBorrowable(i.Type()) && !tainted[i] {
+						tainted[i], changed = true, true
+					}
+				case *ssa.Slice:
+					if tainted[i.X] && !tainted[i] {
+						tainted[i], changed = true, true
+					}
+				case *ssa.ChangeType:
+					if tainted[i.X] && !tainted[i] {
+						tainted[i], changed = true, true
+					}
+				case *ssa.MakeInterface:
+					if tainted[i.X] && !tainted[i] {
+						tainted[i], changed = true, true
+					}
+				case *ssa.Phi:
+					for _, e := range i.Edges {
+						if tainted[e] && !tainted[i] {
+							tainted[i], changed = true, true
+						}
+					}
+				case *ssa.Store:
+					if tainted[i.Val] {
+						if a, ok := i.Addr.(*ssa.Alloc); ok && !taintedAlloc[a] {
+							taintedAlloc[a], changed = true, true
+						}
+						if ia, ok := i.Addr.(*ssa.IndexAddr); ok {
+							if a, ok := ia.X.(*ssa.Alloc); ok && !taintedAlloc[a] {
+								taintedAlloc[a], changed = true, true // varargs array
+							}
+						}
+					}
+				case *ssa.UnOp:
+					if i.Op == token.MUL {
+						if a, ok := i.X.(*ssa.Alloc); ok && taintedAlloc[a] && !tainted[i] {
+							tainted[i], changed = true, true
+						}
+					}
+				}
+				// a slice of a tainted varargs array
+				if sl, ok := in.(*ssa.Slice); ok {
+					if a, ok := sl.X.(*ssa.Alloc); ok && taintedAlloc[a] && !tainted[sl] {
+						tainted[sl], changed = true, true
+					}
+				}
+			}
+		}
+	}
+	// reachability from each release
+	reach := func(from ssa.Instruction) map[ssa.Instruction]bool {
+		r := map[ssa.Instruction]bool{}
+		fb := from.Block()
+		after := false
+		for _, in := range fb.Instrs {
+			if after {
+				r[in] = true
+			}
+			if in == from {
+				after = true
+			}
+		}
+		seen := map[*ssa.BasicBlock]bool{}
+		var stack []*ssa.BasicBlock
+		stack = append(stack, fb.Succs...)
+		for len(stack) > 0 {
+			b := stack[len(stack)-1]
+			stack = stack[:len(stack)-1]
+			if seen[b] {
+				continue
+			}
+			seen[b] = true
+			for _, in := range b.Instrs {
+				r[in] = true
+			}
+			stack = append(stack, b.Succs...)
+		}
+		return r
+	}
+	var obls []*Obligation
+	n := 0
+	for _, rl := range releases {
+		after := reach(rl)
+		for _, b := range fn.Blocks {
+			for _, in := range b.Instrs {
+				if !after[in] {
+					continue
+				}
+				switch in.(type) {
+				case *ssa.DebugRef:
+					continue
+				}
+				if st, ok := in.(*ssa.Store); ok {
+					if _, isAlloc := st.Addr.(*ssa.Alloc); isAlloc {
+						continue // moving the reference is not a read of the memory
+					}
+				}
+				used := false
+				var ops []*ssa.Value
+				for _, op := range in.Operands(ops) {
+					if op != nil && *op != nil && tainted[*op] {
+						used = true
+					}
+				}
+				if !used {
+					continue
+				}
+				switch in.(type) {
+				case *ssa.Extract, *ssa.Slice, *ssa.ChangeType, *ssa.MakeInterface, *ssa.Phi:
+					continue // propagation only; the consuming instruction is reported
+				}
+				n++
+				obls = append(obls, mk(fmt.Sprintf("no use of %s result after %s: %s", src, rel, w.exprTextAt(in)), false,
+					fmt.Sprintf("memory obtained from %s is used by `%s` on a path after `%s` released it", src, w.exprTextAt(in), w.exprTextAt(rl))))
+			}
+		}
+	}
+	if n == 0 {
+		obls = append(obls, mk(fmt.Sprintf("no use of %s result after %s", src, rel), true, ""))
+	}
+	return obls
+}
+
+func isBorrowable(t types.Type) bool {
+	switch t.Underlying().(type) {
+	case *types.Slice, *types.Pointer:
+		return true
+	}
+	return false
+}
